@@ -23,7 +23,7 @@ CLAIMS = {
             'removed by shortcuts. It does not decide the optimisation passes in general, register allocation or any value-level '
             'behaviour.', '3 C01'),
     'C02': ('opcode-signature agreement against the naming convention (RF8), interpreter dispatch exhaustiveness (RF7a), x86 tables '
-            '(RF9), extension/narrowing maps (RF7e/7f), one-step builtin conversions (RF63), range predicates on un-narrowed values (RF64), division folds (RF86), power-of-two width (RF87), xor form of mov 0 while overflow flags are live (RF101), address arithmetic never after an overflow producer (RF100), BT/BF folding on immediates (RF38), ALLOCA replacement is 64-bit (RF9), lea address forms (RF9), neutral-constant shortcut of strength reduction (RF141), memory-type key of GVN (RF149), opcodes machinize rewrites away are not produced again (RF110)',
+            '(RF9), extension/narrowing maps (RF7e/7f), one-step builtin conversions (RF63), range predicates on un-narrowed values (RF64), division folds (RF86), power-of-two width (RF87), xor form of mov 0 while overflow flags are live (RF101), address arithmetic never after an overflow producer (RF100), BT/BF folding on immediates (RF38), ALLOCA replacement is 64-bit (RF9), lea address forms (RF9), neutral-constant shortcut of strength reduction (RF141), memory-type key of GVN (RF149), opcodes machinize rewrites away are not produced again (RF110), no 64-bit value through a narrower return type (RF170)',
             'Decides, for every opcode, that interpreter, constant folder and x86 patterns use the operator, width and signedness that '
             'MIR.md\'s naming convention prescribes, and that every emitted interpreter code has a handler. Boundary-value arithmetic '
             'inside one signature is not decided.', '3 C02'),
@@ -31,7 +31,7 @@ CLAIMS = {
             'code-write protocol (RF4d), label-operand position agreement between duplicator, simplifier and interpreter (RF7g), '
             'interface switch protocol: single writer of the public address and thunk redirection on every setter path (RF31), '
             'indirect-jump CFG edges (RF33), origin of addresses stored into lref data (RF42), address-taken labels (RF52/RF53), API view of a callee at link time (RF56), '
-            'direct-call offset range test (RF64), direct-call patching needs machine code (RF77), interpreter label unit (RF89), dynamic stack alignment of the call wrapper (RF11a), positional pairing of label references and successor versions only under equal counts (RF104), interpreter shim block fetch vs psABI (RF111), one stable address per label under lazy bb generation (RF124), code address never used as the address value of a function (RF132), protect window covers the bytes written (RF4), shim block copies in the activation (RF147), loaded temp data addressed through item->addr by both engines (RF151), bb version generation never edits the shared instruction list (RF165)',
+            'direct-call offset range test (RF64), direct-call patching needs machine code (RF77), interpreter label unit (RF89), dynamic stack alignment of the call wrapper (RF11a), positional pairing of label references and successor versions only under equal counts (RF104), interpreter shim block fetch vs psABI (RF111), one stable address per label under lazy bb generation (RF124), code address never used as the address value of a function (RF132), protect window covers the bytes written (RF4), shim block copies in the activation (RF147), loaded temp data addressed through item->addr by both engines (RF151), bb version generation never edits the shared instruction list (RF165), bb stubs only for a function whose generator state was just built (RF177)',
             'Decides narrow structural necessary conditions of interface independence: the glue that switches a function from stub to '
             'generated code preserves every argument register and the stack, both thunk patterns have one size so retargeting never '
             'overwrites a neighbour, redirection writes go through the protected code-write path, label targets are rewired at the '
@@ -52,7 +52,7 @@ CLAIMS = {
             'stack-slot alignment (RF10e), trampoline cache-key completeness and separation (RF12/RF12b), frame pointer kept around an sp bracket (RF126), register fit of one-class blocks (RF133), result extension index (RF144), container growth not skipped '
             '(RF3b), %al count (RF10h), block stack placement (RF10i), result extension after the result move (RF10j), prologue frame residues mod 16 (RF65), '
             'per-call trampoline buffer (RF47), narrowing maps (RF7f), extension map (RF7e), result moves anchored at the call (RF84), zero-size block copy template (RF74), '
-            'sp-dependent instructions not moved by the combiner (RF32), call liveness of by-value blocks (RF97), extension folding table also here (RF23)',
+            'sp-dependent instructions not moved by the combiner (RF32), call liveness of by-value blocks (RF97), extension folding table also here (RF23), al set in front of a variadic native call (RF174)',
             'Decides that every copy of the SysV argument/return register tables and counts in the FFI trampoline generator, the code '
             'generator and c2mir agree with the psABI and with each other; that block classes map to the register classes the psABI '
             'gives them; that register counters advance exactly for arguments passed in registers; that long double stack slots are '
@@ -60,38 +60,38 @@ CLAIMS = {
             '3 C05'),
     'C06': ('ABI constant agreement for the callee side (RF10/RF10b/RF10e): callee-saved set, vararg save-area layout, incoming long '
             'double slot alignment; VA_START and shim block tables (RF10f/g); save/restore symmetry of the machine-code templates (RF11); '
-            'single-return invariant (RF30); x86 pattern table incl. emission-time rewrites (RF9); prologue frame residues mod 16 by dataflow (RF65); spill-slot reuse inside the allocated slots (RF43), interpreter shim block fetch vs psABI (RF111), nothing saved below sp (RF127), register fit of one-class blocks (RF133), shim block copies in the activation (RF147), extension folding table (RF23), register-passed block storage covers whole eightbytes (RF155)',
+            'single-return invariant (RF30); x86 pattern table incl. emission-time rewrites (RF9); prologue frame residues mod 16 by dataflow (RF65); spill-slot reuse inside the allocated slots (RF43), interpreter shim block fetch vs psABI (RF111), nothing saved below sp (RF127), register fit of one-class blocks (RF133), shim block copies in the activation (RF147), extension folding table (RF23), register-passed block storage covers whole eightbytes (RF155), no extension of an incoming parameter dropped (RF166)',
             'Decides table/constant agreement with the psABI, template symmetry, and that no pass can create a second return that the '
             'single epilogue would miss; does not decide register allocation.', '3 C06'),
     'C10': ('tagged-union discipline in the text writer (RF6), writer/scanner vocabulary agreement (RF7c), scanner input function '
-            '(RF22, RF22b), label-table scope (RF15), FP print precision and lossy FP-to-integer printing (RF37), trailing labels (RF7k), every string byte printed (RF80), reserved-name bookkeeping in the scanner (RF85), fixed-length string escapes (RF103), alias suffix writer/scanner agreement by abstract execution (RF106), per-statement scanner state (RF116), spelling of non-finite FP values (RF118, known finding), octal escape length in the scanner (RF143), integer tokens converted unsigned (RF159)',
+            '(RF22, RF22b), label-table scope (RF15), FP print precision and lossy FP-to-integer printing (RF37), trailing labels (RF7k), every string byte printed (RF80), reserved-name bookkeeping in the scanner (RF85), fixed-length string escapes (RF103), alias suffix writer/scanner agreement by abstract execution (RF106), per-statement scanner state (RF116), spelling of non-finite FP values (RF118, known finding), octal escape length in the scanner (RF143), integer tokens converted unsigned (RF159), lref text for every shape (RF172)',
             'Decides that the textual writer reads only the active union member on every path and terminates each item kind, and that '
             'every keyword, type name, data element type the writer can print is accepted by the scanner. Numeric round trip of values '
             'is not decided.', '3 C10'),
     'C11': ('binary writer/reader vocabulary agreement (RF7d), label provenance (RF15), padding of type-punned temporaries (RF14), '
             'tagged-union discipline (RF6), byte callbacks as the only sink/source (RF7j), encoder counter discipline (RF13c), token payload read once (RF75), '
-            'memory operand fields by abstract execution of writer and reader (RF82), shared header reader (RF96), compression layer verdict (RF88), reserved-name bookkeeping in the reader (RF85b), opcode acceptance agreement of writer and reader (RF115), label counter kept ahead of explicit label numbers (RF121), scalar operand mode survives the binary form (RF129)',
+            'memory operand fields by abstract execution of writer and reader (RF82), shared header reader (RF96), compression layer verdict (RF88), reserved-name bookkeeping in the reader (RF85b), opcode acceptance agreement of writer and reader (RF115), label counter kept ahead of explicit label numbers (RF121), scalar operand mode survives the binary form (RF129), label table of the reader is an injective function, by abstract execution (RF176)',
             'Decides vocabulary agreement between write_* and read_*, that lref labels come from the reader\'s label table, and that no '
             'indeterminate byte reaches the output stream. Value encodings are not decided.', '3 C11'),
     'C12': ('bounded-write guard coverage in the decoder (RF13, including copy helpers and the written-prefix clause for back references), no wrap of the 32-bit '
             'range tests (RF13w: abstract execution of the number reader over all first bytes), check-hash zero-length guards on both sides (RF13h), literal-run invariant of the encoder (RF13s), verdict and end element taken by MIR_read (RF88), '
-            'encoder counter discipline (RF13c), back-reference offset computed from the dictionary as the lookup left it (RF105), each encoder buffer encoded once (RF135), sticky failure verdict of the decoder (RF146), failure exits (RF13e), check hash never narrowed (RF160)',
+            'encoder counter discipline (RF13c), back-reference offset computed from the dictionary as the lookup left it (RF105), each encoder buffer encoded once (RF135), sticky failure verdict of the decoder (RF146), failure exits (RF13e), check hash never narrowed (RF160), decoder follows every reference the encoder can write (RF173)',
             'Decides the memory-safety clause only: every write into and copy within the decoder\'s fixed buffers is dominated by a '
             'bound check on the same index expression that covers the whole extent touched, also through copy helpers. Losslessness '
             'and detection of every corruption are not decided.', '3 C12'),
     'C13': ('must-pass-through rules on setup_global / MIR_link / MIR_load_module (RF16c-e), interned-key discipline (RF24), add_item as a '
-            'transition system over declaration orders (RF16l), RF6 on add_item, exported section registered through its head item (RF79), reference operands stay on import items (RF108), who may write item->addr (RF123), who may write op.u.ref (RF136), reference operand equality (RF138), engines never follow ref_def (RF150), undefined export / forward diagnostics reachable (RF157), no diagnostic after a registration in the environment within one item of MIR_link (RF158)',
+            'transition system over declaration orders (RF16l), RF6 on add_item, exported section registered through its head item (RF79), reference operands stay on import items (RF108), who may write item->addr (RF123), who may write op.u.ref (RF136), reference operand equality (RF138), engines never follow ref_def (RF150), undefined export / forward diagnostics reachable (RF157), no diagnostic after a registration in the environment within one item of MIR_link (RF158), every exported item registered (RF168)',
             'Decides necessary structural conditions: the environment entry is overwritten on every load; every import/export/forward '
             'is bound on every non-error path from the module item table; the redefinition error is guarded by exactly the reference '
             'guard set; table probes use interned names. History semantics are not decided.', '3 C13'),
     'C14': ('size-pass/placement-pass agreement and initialisation obligation in load_bss_data_section (RF16f), provenance of '
-            'resolved addresses in MIR_link (RF16d), store-width agreement (RF7f), contiguity clause (RF16f), lref detection over all items (RF53), lref list rebuilt on reload (RF76), section published at its head (RF79), interpreter label unit (RF89), placement pass leaves lref cells alone (RF16f lref clause), expr data store width (RF128), ref cells hold the public address (RF132), section addresses come from the section allocation only (RF16m), loaded temp data (RF151), counted strings never measured as C strings (RF162)',
+            'resolved addresses in MIR_link (RF16d), store-width agreement (RF7f), contiguity clause (RF16f), lref detection over all items (RF53), lref list rebuilt on reload (RF76), section published at its head (RF79), interpreter label unit (RF89), placement pass leaves lref cells alone (RF16f lref clause), expr data store width (RF128), ref cells hold the public address (RF132), section addresses come from the section allocation only (RF16m), loaded temp data (RF151), counted strings never measured as C strings (RF162), writes of load_bss_data_section sized by the placed item (RF171)',
             'Decides that both passes use the same kind predicates and per-kind size expressions, that bss is zeroed on every load, and '
             'that forward/export addresses come from the definition found in the module item table. Byte contents are not decided.',
             '3 C14'),
     'C15': ('operand-mode table vs specification (RF17), call-family coverage (RF7b) and operand classification (RF19c), memory-operand '
             'decision tables (RF19, RF19e), register-required operands (RF19d), register look-up rule (RF16h), output-capable operand modes (RF81), '
-            'null-then-dereference in the validator (RF67), operand-count exemptions (RF94), repeated-name check dominates every return of create_func_reg (RF102), operands exempt from validation and callee kind (RF134), mode comparison table (RF145), per-instruction checks per opcode and operand count (RF154), validation exemptions evaluated under every operand mode (RF134)',
+            'null-then-dereference in the validator (RF67), operand-count exemptions (RF94), repeated-name check dominates every return of create_func_reg (RF102), operands exempt from validation and callee kind (RF134), mode comparison table (RF145), per-instruction checks per opcode and operand count (RF154), validation exemptions evaluated under every operand mode (RF134), expected modes of switch (RF169)',
             'Decides the static table that the run-time validator consults, row by row against the documented grammar, and that error '
             'branches call the error function with a specific code.', '3 C15'),
     'C16': ('duplicate/restore protocol on every generation path (RF16a/b/i), scratch use of insn data scrubbed (RF16j), no instruction write '
@@ -111,7 +111,7 @@ CLAIMS = {
             'pointer through which its type is written. Schedules are not explored.', '3 C18'),
     'C20': ('opcode template signature agreement under every operand kind (RF8), opcode coverage (RF7h), operand union discipline (RF6), '
             'register typing (RF21), FP constant precision (RF37), overflow flags (RF57), reference operands (RF58), item declarations and call text by abstract '
-            'execution of the printer over model modules (RF59, RF60, RF61), special immediates (RF92), data strings in comments (RF93), element printer (RF95), fixed-length string escapes (RF103), long double never narrowed in printers (RF112), declarations of one name connected by add_item (RF117), non-finite data elements (RF118c), source signedness of integer-to-FP conversions (RF139), wrapping operators computed in unsigned types (RF8 clause), overflow templates executed: types, flags, result through a temporary assigned last (RF156)',
+            'execution of the printer over model modules (RF59, RF60, RF61), special immediates (RF92), data strings in comments (RF93), element printer (RF95), fixed-length string escapes (RF103), long double never narrowed in printers (RF112), declarations of one name connected by add_item (RF117), non-finite data elements (RF118c), source signedness of integer-to-FP conversions (RF139), wrapping operators computed in unsigned types (RF8 clause), overflow templates executed: types, flags, result through a temporary assigned last (RF156), address text of memory operands evaluated (RF167), translator never writes into the module (RF175)',
             'Decides that each opcode\'s C template uses the operator/width/signedness the interpreter uses, that every public opcode has '
             'a case, and that out_op reads the union member matching the operand mode.', '3 C20'),
 }
